@@ -971,11 +971,10 @@ one); sources may read declared slots through attribute paths (`S.x`, `_space.x`
 `on_create_ref` and of `UserSpaceImpl.on_inherit`, /repo 5b95fbf and cdc3def), `Edit.globalClearing`
 (`ModelImpl.new_ref / change_ref / del_ref`).  `Edit.CIG` = `Edit.CIW` without "no model-level reference".
 
-One exemption, the one the Boolean `Edit.covered` makes too: a slot `(S, x)` that shows the model-level `x`
-when the space `S` is DELETED (`Edit.Orphaned`; an attribute path through a deleted space is an
-object-valued reference to a deleted space – C10's subject, not in the machine):
-`Edit.NoOrphanReaders` – at a `del space` step nothing held was read from a model-level reference through
-a deleted space – is a hypothesis of the step theorem and part of `Edit.AdmissibleG`. -/
+A slot `(S, x)` that shows the model-level `x` when the space `S` is DELETED: `BaseSpaceImpl.on_delete`
+clears the attribute readers of every model-level reference the space does not hide (/repo 40cbe69:
+`Edit.orphanClears`); before that repair this was the one obligation that failed (hypothesis
+`NoOrphanReaders` of PROOF6's first round; now gone). -/
 
 /-- **`model.x = v` / `del model.x`: the clearing covers** – every cells of every space is notified, every
 slot through which the model-level reference was seen is reader-free.  No hypothesis. -/
@@ -989,24 +988,28 @@ theorem coveredGlobal_check_sound (t : Edit.Tabs) (st : SM.St) (x : String) (cl 
   Edit.coveredGlobal_sound t st x cl h
 
 /-- **The clearing reaches every change, model-level references and declared slots present** – for all ten
-structural operations, from the structural invariant alone.  `Edit.CoversS`: the clauses of `Edit.Covers`
+structural operations, from the structural invariant alone.  `Edit.CoversG`: the clauses of `Edit.Covers`
 (namespaces, entries of cells) and the SLOT clauses: a slot `(q, x)` that denotes another reference / value
 than before – a reference or a cells `x` appears in or vanishes from `q` over a model-level `x`, a
-reference entry changes – has the cells of `q` notified and, if it denoted something, its recorded readers
-cleared (`clear_attr_referrers`), or belongs to a space the step deletes (`Edit.Orphaned`). -/
+reference entry changes, `q` is deleted – has the cells of `q` notified and, if it denoted something, its
+recorded readers cleared (`clear_attr_referrers`). -/
 theorem clearing_covers_every_change_with_globals (P : Edit.Params) (w : Edit.W) (o : SM.Op) (hi : SM.Inv w.sm)
     (ha : Edit.AllocOK w.tabs w.sm) (hsup : Edit.supported o = true)
     (st' : SM.St) (hop : w.sm.apply P.kw o = some st') :
-    Edit.CoversS (w.tabs.grow st') w.sm st' (Edit.clearingG P.kw (w.tabs.grow st') w.sm st' o) :=
-  Edit.coversS_clearingG P.kw _ o hi hsup hop (Edit.allocOK_grow w.tabs st' ha.slots)
+    Edit.CoversG (w.tabs.grow st') w.sm st' (Edit.clearingG P.kw (w.tabs.grow st') w.sm st' o) := by
+  refine Edit.coversG_clearingG P.kw _ o hi hsup hop (Edit.allocOK_grow w.tabs st' ha.slots) ?_
+  intro q x hq hx
+  obtain ⟨l, hl, _⟩ := (Edit.ext_grow w.tabs st').refs
+  rw [hl]
+  exact List.mem_append_left _ (ha.gslots q x hq hx)
 
 /-- **`machineG_keeps_ci`: every operation of the machine with model-level references keeps the
 invariant** – the ten structural operations with `clearingG`, `model.x = v`, `del model.x`, evaluations,
 assignments, clearings – for the definitions of the NEW structure. -/
 theorem machineG_keeps_ci (P : Edit.Params) (lt : Node → Node → Prop) (ho : StrictOrder lt) (w : Edit.W)
-    (op : Edit.OpG) (hw : WF (w.env P) lt) (h : Edit.CIG P lt w) (horph : Edit.NoOrphanReaders P w op) :
+    (op : Edit.OpG) (hw : WF (w.env P) lt) (h : Edit.CIG P lt w) :
     Edit.CIG P lt (Edit.stepG P w op) :=
-  Edit.stepG_cig ho w op hw h horph
+  Edit.stepG_cig ho w op hw h
 
 /-- the two operations on model-level references need no hypothesis beyond the regime -/
 theorem global_edits_keep_ci (P : Edit.Params) (lt : Node → Node → Prop) (w : Edit.W) (x : String) (v : Nat)
@@ -1039,9 +1042,8 @@ theorem live_equals_edits_only_with_globals (P : Edit.Params) (lt : Node → Nod
     (h1 : Edit.answer P (Edit.runG P (Edit.W.init slots) ops) q n key = some (.ok v))
     (h2 : Edit.answer P (Edit.runG P (Edit.W.init slots) (Edit.noEvalsG ops)) q n key = some (.ok v')) : v = v' := by
   have hr0 : RgNoInputs (Edit.W.init slots).ex := fun e he => by simp [Edit.W.init] at he
-  have hno : ∀ r, Edit.NoRg (Edit.W.init slots).ex r := fun r m hm => by simp [Edit.W.init] at hm
   obtain ⟨hs, c1, c2, hwf⟩ := Edit.runG_sim ho ops _ _ (Edit.wf_init P lt slots) (Edit.cig_init P lt slots)
-    (Edit.cig_init P lt slots) hr0 hr0 ⟨rfl, rfl, rfl⟩ hadm hno
+    (Edit.cig_init P lt slots) hr0 hr0 ⟨rfl, rfl, rfl⟩ hadm
   have henv := hs.env_eq P
   unfold Edit.answer at h1 h2
   split at h1
@@ -1060,13 +1062,13 @@ theorem live_equals_edits_only_with_globals (P : Edit.Params) (lt : Node → Nod
     · cases h2
   · cases h1
 
-/-- how the hypotheses are guaranteed: sources that read references through attribute paths only, call
-nothing and catch nothing, and a history that deletes no space -/
-theorem histories_admissibleG_from_sources (P : Edit.Params) (lt : Node → Node → Prop) (ho : StrictOrder lt)
+/-- how the regime is guaranteed: for sources that read references through attribute paths only, call
+nothing and catch nothing EVERY history is admissible -/
+theorem histories_admissibleG_from_sources (P : Edit.Params) (lt : Node → Node → Prop)
     (hnc : ∀ v key, Edit.NsNoCatch (P.srcOf v key)) (hao : ∀ v key, Edit.NsAttrOnly (P.srcOf v key))
-    (hcalls : ∀ v key, Edit.NsNoCalls (P.srcOf v key)) (slots : List (SM.Path × String)) (ops : List Edit.OpG)
-    (hnd : ∀ op ∈ ops, Edit.isDelSpace op = false) : Edit.AdmissibleG P lt (Edit.W.init slots) ops :=
-  Edit.admissibleG_of_sources P lt ho hnc hao hcalls ops _ hnd (Edit.cig_init P lt slots)
+    (hcalls : ∀ v key, Edit.NsNoCalls (P.srcOf v key)) (slots : List (SM.Path × String)) (ops : List Edit.OpG) :
+    Edit.AdmissibleG P lt (Edit.W.init slots) ops :=
+  Edit.admissibleG_of_sources P lt hnc hao hcalls ops _
 
 /-! Non-vacuity (`Proofs/EditMachineGlobalsExamples.lean`, `Edit.gOps`): `m.x = 1`; `B.x = 5`; `T.c` is
 `lambda: S.x` (the declared slot `(S, x)`); `T.c()` is 1 and is held; `S.add_bases(B)`: `S.x` is now the
@@ -1116,6 +1118,32 @@ theorem coverage_fails_without_on_inherit_shadow_clearing :
     (Edit.stepPre Edit.gP (Edit.runG Edit.gP (Edit.W.init Edit.gSlots) (Edit.gOps.take 7))
       (.addBases ["S"] [["B"]])).ex.data = [((0, []), .int 1)] ∧
     Edit.answer Edit.gP (Edit.runG Edit.gP (Edit.W.init Edit.gSlots) Edit.gOps) ["T"] "c" [] = some (.ok (.int 5)) := by
+  decide
+
+/-! The deletion of a space through which a model-level reference was read (`Edit.hOps`): `m.x = 1`;
+`T.c = lambda: S.x`; `T.c()` is 1 and held; `del m.S`: `on_delete` clears the readers of `x`
+(`Edit.orphanClears`), nothing is held; `T.c()` fails (the slot denotes nothing), as in the model that only
+saw the edits. -/
+example : Edit.CIG Edit.gP idLt (Edit.runG Edit.gP (Edit.W.init Edit.gSlots) Edit.hOps) :=
+  (machineG_reachable_ci Edit.gP idLt idLt_strict Edit.gSlots Edit.hOps Edit.hOps_admissible).1
+
+example : Edit.answer Edit.gP (Edit.runG Edit.gP (Edit.W.init Edit.gSlots) (Edit.hOps.take 4)) ["T"] "c" [] = some (.ok (.int 1)) ∧
+    (Edit.runG Edit.gP (Edit.W.init Edit.gSlots) (Edit.hOps.take 5)).ex.data = [((0, []), .int 1)] ∧
+    (Edit.runG Edit.gP (Edit.W.init Edit.gSlots) (Edit.hOps.take 6)).ex.data = [] ∧
+    Edit.stepCoveredG Edit.gP (Edit.runG Edit.gP (Edit.W.init Edit.gSlots) (Edit.hOps.take 5))
+      (.op (.struct (.delSpace ["S"]))) = true ∧
+    (Edit.runG Edit.gP (Edit.W.init Edit.gSlots) Edit.hOps).ex.data = [] := by
+  decide
+
+/-- **The negative witness for /repo 40cbe69** (kernel-checked): with the clearing of the code before it
+(`Edit.clearingPre40`: `on_delete` clears the readers of the deleted space's OWN references only) the
+coverage obligation FAILS at the `del m.S` step of that history, and the machine with that clearing keeps the
+stale 1 for `T.c()` although the slot `(S, x)` denotes nothing any more. -/
+theorem coverage_fails_without_on_delete_global_clearing :
+    Edit.stepCoveredPre40 Edit.gP (Edit.runG Edit.gP (Edit.W.init Edit.gSlots) (Edit.hOps.take 5))
+      (.delSpace ["S"]) = false ∧
+    (Edit.stepPre40 Edit.gP (Edit.runG Edit.gP (Edit.W.init Edit.gSlots) (Edit.hOps.take 5))
+      (.delSpace ["S"])).ex.data = [((0, []), .int 1)] := by
   decide
 
 /-! ### a member that starts to hide a model-level reference (`Edit.shadowClears`; /repo 5b95fbf, cdc3def)
